@@ -26,7 +26,12 @@ ran_pk = {k.split("::")[0] for k in res}
 bad = sorted(t for t in stable if t.split("::")[0] in ran_pk and res.get(t) != "pass")
 print("tests seen: %d, stable_pass in the packages run: %d, not passing: %d" % (len(res), sum(1 for t in stable if t.split("::")[0] in ran_pk), len(bad)))
 # sub-test names derived from random data differ from run to run: a MISSING sub-test whose parent passed is not a failure
-real = [t for t in bad if res.get(t) is not None or "/" not in t.split("::")[1] or res.get(t.split("/")[0]) != "pass"]
+def parent(t):
+    pk, name = t.split("::", 1)
+    return pk + "::" + name.split("/")[0]
+
+
+real = [t for t in bad if res.get(t) is not None or "/" not in t.split("::", 1)[1] or res.get(parent(t)) != "pass"]
 print("failing or missing with a parent that did not pass: %d" % len(real))
 for t in real[:80]:
     print("  ", res.get(t, "MISSING"), t)
